@@ -5,10 +5,12 @@
                  imp : << per module i+1: sequence of [t : target module, sel : "all" | "pub" | "fn", cont : BOOLEAN] >>]
      "Binde alle Module aus <Verzeichnis> ein" is the whole-module import of every module of the directory in name order: the harness writes
      it as consecutive entries, all but the first with cont = TRUE (one statement: no marker of the main module between them).
-     sel "all" = whole-module import, "pub" / "fn" = selective import of the public variable / public function only.
+     sel "all" = whole-module import, "pub" / "fn" / "const" / "type" = selective import of the public variable / function / Konstante /
+     Kombination only.  Whatever an import names, executing it initialises the module.
    Every module k declares (scheme fixed by the harness):
      a private function `helfer` (same name in every module) that prints h<k>,  a public variable wert<k> whose
-     initialiser calls it,  a private variable geheim<k>,  a public function zeige<k>,  a top-level print TOP<k>.
+     initialiser calls it,  a private variable geheim<k>,  a public function zeige<k>,  a public Konstante KONST<k>,  a public Kombination
+     Kasten<k> whose field default reads wert<k>,  a top-level print TOP<k>.
    Loader:  a module is parsed once per path; modules that import each other (directly or through others) are rejected.
    Run:     executing an import statement initialises the target unless done: first the target's own imports in textual
             order, then its global initialisers in textual order; top-level statements of imported modules never run.   *)
@@ -46,10 +48,10 @@ InitOnceInOrder(G) ==       \* the two facts the property states, as consequence
     IN  /\ \A m \in Reach(G, 0) : Cardinality({p \in 1..Len(out) : out[p] = m}) = 1
         /\ \A m \in Reach(G, 0) : \A d \in Targets(G, m) : pos(d) < pos(m)
 
-(* visibility in the main module of the names of module j:  "pub" = wert<j>, "fn" = zeige<j>, "priv" = geheim<j>;
+(* visibility in the main module of the names of module j:  "pub" = wert<j>, "fn" = zeige<j>, "const" = KONST<j>, "type" = Kasten<j>, "priv" = geheim<j>;
    "reexp" = a public name of a module that j itself imports, asked for by a selective import from j: a module exposes
    exactly its own public declarations, never the ones it imported *)
 Visible(G, j, name) ==
-    /\ name \in {"pub", "fn"}
+    /\ name \in {"pub", "fn", "const", "type"}
     /\ \E k \in 1..Len(G.imp[1]) : G.imp[1][k].t = j /\ (G.imp[1][k].sel = "all" \/ G.imp[1][k].sel = name)
 =============================================================================
